@@ -159,7 +159,7 @@ def gen_scenario(batch_seed, i, tier):
         if r < 0.78:
             argv.append('--output=out/c14-%d.%s' % (i, kind if rng.random() < 0.8 else kind.upper()))
         elif r < 0.86:
-            argv.append('--output=out/c14-%d.svgz' % i)
+            argv.append('--output=out/c14-%d.%s' % (i, rng.choice(('svgz', 'svgz', 'SVGZ', 'SvgZ'))))
         else:
             if rng.random() < 0.5:
                 argv.append('--compact')
